@@ -372,6 +372,27 @@ def run_case(case):
     lst = rewrite.expected(case)
     lst.layout()
     ob = irview.observe(r.bu, isa)
+    # the bytes the directives are attached to: a rewrite that leaves
+    # replaced instructions behind (or loses some) where directives stand
+    # inside the edited range also leaves their states describing the wrong
+    # code
+    exp_bytes = lst.layout()
+    predicted = True
+    for rec in r.rec.assembled:
+        if rec["summary"] is None or rec["patch"].eid >= 1000:
+            continue
+        e_ = case["edits"][rec["patch"].eid]
+        want = b"".join(t.data for t in lst.patch_tokens(
+            e_["p"]["lines"], rec["patch"].eid, None))
+        if rec["summary"]["text"] != want:
+            predicted = False
+    if predicted:
+        v_, c_ = oracles.check_bytes(r, lst, ob, exp_bytes)
+        ctr["bytes_compared_under_cfi"] = c_.get("bytes_compared", 0)
+        for x in v_:
+            if x["key"] == "bytes:unexpected-new-interval":
+                continue    # (the function this check inserts itself)
+            viol.append({"key": "cfi:" + x["key"], "msg": x["msg"]})
     tl0, err0 = evaluate(state["locs0"])
     if err0:
         return {"sig": None, "violations": [], "counters": ctr,
